@@ -74,6 +74,7 @@ theorem suffix_drop (code s : Bytes) (h : s <:+ code) : code.drop (posOf code s)
 inductive Item
   | unq (lead text trail : Bytes)
   | quo (lead text trail : Bytes)
+  | opn (lead text : Bytes)     -- quoted without closing quote: runs to the end of the line
   deriving DecidableEq, Repr
 
 def allBlank (l : Bytes) : Bool := l.all isBlank
@@ -88,15 +89,22 @@ def headNonBlank : Bytes → Bool
 def Item.render : Item → Bytes
   | .unq l t r => l ++ (t ++ r)
   | .quo l t r => l ++ (QUOTE :: (t ++ (QUOTE :: r)))
+  | .opn l t => l ++ (QUOTE :: t)
 
 def Item.wf : Item → Bool
   | .unq l t r => allBlank l && allBlank r && t.all uchar && headNonBlank t && headNonBlank t.reverse
   | .quo l t r => allBlank l && allBlank r && t.all (fun c => !(c == QUOTE || isEndLine c))
+  | .opn l t => allBlank l && t.all (fun c => !(c == QUOTE || isEndLine c))
+
+def Item.isOpen : Item → Bool
+  | .opn _ _ => true
+  | _ => false
 
 /-- the string the item denotes (the spec: quotes stripped / unquoted text trimmed) -/
 def Item.sval : Item → Bytes
   | .unq _ t _ => t
   | .quo _ t _ => t
+  | .opn _ t => t
 
 /-- what follows an item: a comma, a colon, a NUL -/
 def Delim : Bytes → Prop
@@ -135,9 +143,22 @@ theorem stripR_text_trail (t r : Bytes) (hr : allBlank r = true) (ht : headNonBl
     | nil => trivial
     | cons c u => rw [h] at ht; simpa [headNonBlank] using ht
 
-/-- string READ of a well-formed item -/
+theorem dropWhile_noquote (t : Bytes) (hq : ∀ c ∈ t, (c == QUOTE) = false) :
+    t.dropWhile (fun x => x == QUOTE) = t := by
+  apply dropWhile_head_false
+  cases t with
+  | nil => trivial
+  | cons c u => exact hq c (by simp)
+
+theorem stripR_noquote (t : Bytes) (hq : ∀ c ∈ t, (c == QUOTE) = false) :
+    stripR (fun x => x == QUOTE) t = t := by
+  unfold stripR
+  rw [dropWhile_noquote _ (fun c hc => hq c (by simpa using hc))]
+  simp
+
+/-- string READ of a well-formed item; an unclosed quoted item must be followed by the end of the line -/
 theorem readItem_str (fixed : Bool) (code : Bytes) (pos : Nat) (it : Item) (D : Bytes)
-    (hwf : it.wf = true) (hD : Delim D) :
+    (hwf : it.wf = true) (hD : Delim D) (hfit : it.isOpen = true → ∃ T : Bytes, D = 0 :: T) :
     readItem fixed code pos (it.render ++ D) true = .ok (.str it.sval) (posOf code D) := by
   obtain ⟨d, D', rfl⟩ : ∃ d D', D = d :: D' := by
     cases D with
@@ -238,6 +259,41 @@ theorem readItem_str (fixed : Bool) (code : Bytes) (pos : Nat) (it : Item) (D : 
               simpa [or_comm] using this
             simpa using hq x hx
     simp [this, Item.sval]
+  | opn l t =>
+    obtain ⟨T, hR⟩ := hfit rfl
+    have hd : d = 0 := (List.cons.inj hR).1
+    subst hd
+    clear hR T
+    simp only [Item.wf, Bool.and_eq_true] at hwf
+    obtain ⟨hl, ht⟩ := hwf
+    have ht' : ∀ c ∈ t, (fun x => x == QUOTE || isEndLine x) c = false := by
+      intro c hc
+      have := (List.all_eq_true.mp ht) c hc
+      simpa using this
+    have hq : ∀ c ∈ t, (c == QUOTE) = false := by
+      intro c hc
+      have := ht' c hc
+      simp only [Bool.or_eq_false_iff] at this
+      exact this.1
+    have hs3 : dropBlanks (Item.render (.opn l t) ++ 0 :: D') = QUOTE :: (t ++ 0 :: D') := by
+      simp only [Item.render, List.append_assoc, List.cons_append]
+      rw [dropBlanks_append_blank _ _ (allBlank_mem hl)]
+      apply dropBlanks_head
+      decide
+    unfold readItem
+    simp only [if_true]
+    rw [hs3, readTo_stop _ _ _ (by decide)]
+    simp only [readString, show (QUOTE == QUOTE) = true from rfl, if_true]
+    rw [readTo_append _ _ _ ht', readTo_stop _ _ _ (by decide)]
+    simp only [List.append_nil, show ((0 : Nat) == QUOTE) = false from rfl, List.isEmpty_nil,
+      Bool.false_eq_true, if_false, if_true]
+    rw [delim_dropBlanks hD, delim_endOrComma hD]
+    have : stripBoth (fun x => x == QUOTE) (QUOTE :: t) = t := by
+      unfold stripBoth
+      have h1 : (QUOTE :: t).dropWhile (fun x => x == QUOTE) = t.dropWhile (fun x => x == QUOTE) := by
+        simp [List.dropWhile]
+      rw [h1, dropWhile_noquote _ hq, stripR_noquote _ hq]
+    simp [this, Item.sval]
 
 /-! ### numeric READ -/
 
@@ -245,11 +301,13 @@ theorem readItem_str (fixed : Bool) (code : Bytes) (pos : Nat) (it : Item) (D : 
 def Item.isNum : Item → Bool
   | .unq _ t _ => t.all isDigit
   | .quo _ _ _ => false
+  | .opn _ _ => false
 
 /-- item that cannot start a number: quoted, or unquoted text starting with something else than
     a digit, `.`, `+`, `-`, `&` -/
 def Item.nonNum : Item → Bool
   | .quo _ _ _ => true
+  | .opn _ _ => true
   | .unq _ (c :: _) _ => !(c == 38 || isDigit c || c == 46 || c == 43 || c == 45)
   | .unq _ [] _ => false
 
@@ -372,6 +430,12 @@ theorem readItem_bad (code : Bytes) (pos : Nat) (it : Item) (D : Bytes)
     simp only [Item.render, List.append_assoc, List.cons_append]
     rw [dropBlanks_append_blank _ _ (allBlank_mem hl)]
     exact dropBlanks_head _ _ (by decide)
+  | opn l t =>
+    simp only [Item.wf, Bool.and_eq_true] at hwf
+    apply key QUOTE (t ++ D) <;> try decide
+    simp only [Item.render, List.append_assoc, List.cons_append]
+    rw [dropBlanks_append_blank _ _ (allBlank_mem hwf.1)]
+    exact dropBlanks_head _ _ (by decide)
   | unq l t r =>
     cases t with
     | nil => simp [Item.nonNum] at hbad
@@ -462,13 +526,26 @@ def isColon : Sep → Bool
   | .colon => true
   | _ => false
 
+/-- the statement behind starts a new line (or the program ends) -/
+def nextIsLine : Prog → Bool
+  | [] => true
+  | (sep', _) :: _ => !isColon sep'
+
+/-- an unclosed quoted item is the last item of its statement, and that statement the last of its line -/
+def itemsOk : List Item → Prog → Bool
+  | [], _ => true
+  | it :: its, rest => (!it.isOpen || (its.isEmpty && nextIsLine rest)) && itemsOk its rest
+
 def progWf : Prog → Bool
   | [] => true
   | (sep, st) :: rest =>
     sep.wf && st.wf && progWf rest &&
       (match st, rest with
        | .rem _ _, (sep', _) :: _ => !isColon sep'   -- a REM runs to the end of its line
-       | _, _ => true)
+       | _, _ => true) &&
+      (match st with
+       | .data _ f m => itemsOk (f :: m) rest
+       | _ => true)
 
 /-- DATA items of the program in line and statement order -/
 def allItems : Prog → List Item
@@ -668,7 +745,7 @@ theorem skipToToken_prog (p : Prog) (hwf : progWf p = true) :
     | zero => omega
     | succ f =>
       simp only [progWf, Bool.and_eq_true] at hwf
-      obtain ⟨⟨⟨hsep, hst⟩, hrest⟩, hremc⟩ := hwf
+      obtain ⟨⟨⟨⟨hsep, hst⟩, hrest⟩, hremc⟩, -⟩ := hwf
       have hf' : rest.length < f := by simp at hf; omega
       -- after the separator
       have hstep : skipToToken true tData (f + 1) X =
@@ -729,7 +806,7 @@ structure Cursor where
 def Cursor.render (c : Cursor) : Bytes := renderMore c.its ++ renderProg c.rest
 /-- the items still to be read, in order -/
 def Cursor.items (c : Cursor) : List Item := c.its ++ allItems c.rest
-def Cursor.wf (c : Cursor) : Bool := c.its.all Item.wf && progWf c.rest
+def Cursor.wf (c : Cursor) : Bool := c.its.all Item.wf && progWf c.rest && itemsOk c.its c.rest
 
 def Cursor.next : Cursor → Option (Item × Cursor)
   | ⟨it :: its, rest⟩ => some (it, ⟨its, rest⟩)
@@ -763,32 +840,53 @@ theorem next_items (c : Cursor) :
     | some v => obtain ⟨f, m, r⟩ := v; rfl
 
 theorem firstData_wf (p : Prog) (h : progWf p = true) (f : Item) (m : List Item) (r : Prog)
-    (hf : firstData p = some (f, m, r)) : f.wf = true ∧ m.all Item.wf = true ∧ progWf r = true := by
+    (hf : firstData p = some (f, m, r)) :
+    f.wf = true ∧ m.all Item.wf = true ∧ progWf r = true ∧ itemsOk (f :: m) r = true := by
   induction p with
   | nil => simp [firstData] at hf
   | cons x rest ih =>
     obtain ⟨sep, st⟩ := x
     simp only [progWf, Bool.and_eq_true] at h
-    obtain ⟨⟨⟨-, hst⟩, hrest⟩, -⟩ := h
+    obtain ⟨⟨⟨⟨-, hst⟩, hrest⟩, -⟩, hio⟩ := h
     cases st with
     | data pre f' m' =>
       simp only [firstData, Option.some.injEq, Prod.mk.injEq] at hf
       obtain ⟨rfl, rfl, rfl⟩ := hf
       simp only [Stmt.wf, Bool.and_eq_true] at hst
-      exact ⟨hst.1.2, hst.2, hrest⟩
+      exact ⟨hst.1.2, hst.2, hrest, hio⟩
     | other as => exact ih hrest (by simpa [firstData] using hf)
     | rem pre t => exact ih hrest (by simpa [firstData] using hf)
 
+theorem nextIsLine_render (rest : Prog) (h : nextIsLine rest = true) : ∃ T : Bytes, renderProg rest = 0 :: T := by
+  cases rest with
+  | nil => exact ⟨[0, 0], rfl⟩
+  | cons x rest' =>
+    obtain ⟨sep', st'⟩ := x
+    cases sep' with
+    | colon => simp [nextIsLine, isColon] at h
+    | line a b c d => exact ⟨a :: b :: c :: d :: (st'.render ++ renderProg rest'), by simp [renderProg_cons, Sep.render]⟩
+
 theorem next_wf (c : Cursor) (h : c.wf = true) (it : Item) (c' : Cursor) (hn : c.next = some (it, c')) :
-    it.wf = true ∧ c'.wf = true := by
+    it.wf = true ∧ c'.wf = true ∧ (it.isOpen = true → ∃ T : Bytes, c'.render = 0 :: T) := by
   obtain ⟨its, rest⟩ := c
   simp only [Cursor.wf, Bool.and_eq_true] at h
+  have key : ∀ (i : Item) (l : List Item) (r : Prog), itemsOk (i :: l) r = true →
+      itemsOk l r = true ∧ (i.isOpen = true → ∃ T : Bytes, (⟨l, r⟩ : Cursor).render = 0 :: T) := by
+    intro i l r hio
+    simp only [itemsOk, Bool.and_eq_true, Bool.or_eq_true, Bool.not_eq_true'] at hio
+    refine ⟨hio.2, fun ho => ?_⟩
+    rcases hio.1 with hno | ⟨hl, hr⟩
+    · rw [ho] at hno; cases hno
+    · have : l = [] := by simpa using hl
+      subst this
+      simpa [Cursor.render, renderMore] using nextIsLine_render r hr
   cases its with
   | cons i its =>
     simp only [Cursor.next, Option.some.injEq, Prod.mk.injEq] at hn
     obtain ⟨rfl, rfl⟩ := hn
     simp only [List.all_cons, Bool.and_eq_true] at h
-    exact ⟨h.1.1, by simp [Cursor.wf, h.1.2, h.2]⟩
+    obtain ⟨hio', hfit⟩ := key _ _ _ h.2
+    exact ⟨h.1.1.1, by simp [Cursor.wf, h.1.1.2, h.1.2, hio'], hfit⟩
   | nil =>
     simp only [Cursor.next] at hn
     cases hfd : firstData rest with
@@ -797,8 +895,9 @@ theorem next_wf (c : Cursor) (h : c.wf = true) (it : Item) (c' : Cursor) (hn : c
       obtain ⟨f, m, r⟩ := v
       simp only [hfd, Option.some.injEq, Prod.mk.injEq] at hn
       obtain ⟨rfl, rfl⟩ := hn
-      obtain ⟨h1, h2, h3⟩ := firstData_wf rest h.2 _ _ _ hfd
-      exact ⟨h1, by simp [Cursor.wf, h2, h3]⟩
+      obtain ⟨h1, h2, h3, h4⟩ := firstData_wf rest h.1.2 _ _ _ hfd
+      obtain ⟨hio', hfit⟩ := key _ _ _ h4
+      exact ⟨h1, by simp [Cursor.wf, h2, h3, hio'], hfit⟩
 
 theorem firstData_split (p : Prog) (f : Item) (m : List Item) (r : Prog) (hf : firstData p = some (f, m, r)) :
     ∃ pre, renderProg p = pre ++ tData :: (f.render ++ (renderMore m ++ renderProg r)) := by
@@ -870,7 +969,7 @@ theorem readEntryS_cursor (code : Bytes) (pos : Nat) (c : Cursor) (hwf : c.wf = 
     simp [readEntryS, atEnd, isEndStmt, endStatement, COMMA]
   | nil =>
     have hss := renderProg_sepStart rest
-    have hscan := skipToToken_prog rest hwf.2 ((renderProg rest).length + 1) (renderProg rest)
+    have hscan := skipToToken_prog rest hwf.1.2 ((renderProg rest).length + 1) (renderProg rest)
       (by have := renderStmts_length rest; simp [renderProg]; omega) (scan_sepStart hss)
     have hat : atEnd (renderProg rest) = true := by
       cases h : renderProg rest with
@@ -914,7 +1013,7 @@ theorem progWf_append_right (p q : Prog) (h : progWf (p ++ q) = true) : progWf q
   | cons x rest ih =>
     obtain ⟨sep, st⟩ := x
     simp only [List.cons_append, progWf, Bool.and_eq_true] at h
-    exact ih h.1.2
+    exact ih h.1.1.2
 
 /-- a successful lookup points at the first line with that number -/
 theorem lookup_lineTable (p : Prog) : ∀ (off n o : Nat), n < 65536 → (lineTable off p).lookup n = some o →
@@ -1087,13 +1186,15 @@ theorem next_suffix (code : Bytes) (c : Cursor) (hs : c.render <:+ code) (it : I
   simp
 
 theorem readItem_compat (code : Bytes) (pos : Nat) (isStr : Bool) (it : Item) (D : Bytes)
-    (hwf : it.wf = true) (hc : Compat isStr it = true) (hD : Delim D) :
+    (hwf : it.wf = true) (hc : Compat isStr it = true) (hD : Delim D)
+    (hfit : it.isOpen = true → ∃ T : Bytes, D = 0 :: T) :
     readItem true code pos (it.render ++ D) isStr = .ok (specVal isStr it) (posOf code D) := by
   cases isStr with
-  | true => simpa [specVal] using readItem_str true code pos it D hwf hD
+  | true => simpa [specVal] using readItem_str true code pos it D hwf hD hfit
   | false =>
     cases it with
     | quo l t r => simp [Compat, Item.isNum] at hc
+    | opn l t => simp [Compat, Item.isNum] at hc
     | unq l t r =>
       have hn : (Item.unq l t r).isNum = true := by simpa [Compat] using hc
       simpa [specVal, Item.sval] using readItem_num true code pos l t r D hwf hn hD
@@ -1120,14 +1221,14 @@ theorem readVars_cursor (code : Bytes) (ts : List Bool) :
       simp only at hni
       rw [hni] at hc
       obtain ⟨hct, hcs⟩ := hc
-      obtain ⟨hitwf, hc1wf⟩ := next_wf c hwf it c1 hn
+      obtain ⟨hitwf, hc1wf, hfit⟩ := next_wf c hwf it c1 hn
       have hs1 := next_suffix code c hs it c1 hn
       obtain ⟨c', hr, hw', hs', hi'⟩ := ih c1 hc1wf hs1 hcs
       refine ⟨c', ?_, hw', hs', ?_⟩
       · have he := readEntry_cursor code c hwf hs t
         rw [hn] at he
         simp only at he
-        rw [readItem_compat code _ t it _ hitwf hct (cursor_delim c1)] at he
+        rw [readItem_compat code _ t it _ hitwf hct (cursor_delim c1) hfit] at he
         simp only [readVars, he, hr, hni, List.zipWith_cons_cons]
       · rw [hni, hi']; simp
 
@@ -1138,7 +1239,7 @@ theorem start_run (p : Prog) (hwf : progWf p = true) (ts : List Bool) (hc : Comp
           c'.wf = true ∧ c'.render <:+ renderProg p ∧ c'.items = (allItems p).drop ts.length := by
   have h0 : (⟨[], p⟩ : Cursor).render = renderProg p := by simp [Cursor.render, renderMore]
   have h1 : (⟨[], p⟩ : Cursor).items = allItems p := by simp [Cursor.items]
-  have := readVars_cursor (renderProg p) ts ⟨[], p⟩ (by simpa [Cursor.wf] using hwf)
+  have := readVars_cursor (renderProg p) ts ⟨[], p⟩ (by simp [Cursor.wf, hwf, itemsOk])
     (by rw [h0]; exact List.suffix_refl _) (by rw [h1]; exact hc)
   rw [h0, h1, posOf_self] at this
   exact this
